@@ -93,3 +93,15 @@ Proof.
   - rewrite !src_div_rounded by assumption. reflexivity.
   - rewrite !src_wide_product by assumption. reflexivity.
 Qed.
+
+(* rewrite every translated kernel into its model counterpart *)
+Ltac to_model :=
+  repeat first
+    [ rewrite tie_i128_div_rounded
+    | rewrite tie_i128_mul_div_ten_pow_rounded
+    | progress change g_ten_pow with (fun (_ : profile) => ten_pow)
+    | progress change g_checked_ten_pow with (fun (_ : profile) => checked_ten_pow)
+    | progress change g_mul_pow_ten with (fun (_ : profile) => mul_pow_ten)
+    | progress change g_checked_mul_pow_ten with (fun (_ : profile) => checked_mul_pow_ten)
+    | progress change g_i128_div_mod_floor with i128_div_mod_floor ];
+  cbv beta iota.
